@@ -84,7 +84,7 @@ HOF_PREFIX = ("core::option::Option::", "core::result::Result::", "core::iter::"
 WS_CLOSURE_RE = __import__("re").compile(r"\{closure@<?signal_hook")
 import re as _re
 # std adapters whose only job is to forward a value between Result/Option shapes (`?` desugaring, identity conversions)
-TRANSPARENT_RE = _re.compile(r"^<core::(result::Result|option::Option)<.*> as core::ops::try_trait::(Try|FromResidual<.*>)>::(branch|from_residual|from_output)$"
+TRANSPARENT_RE = _re.compile(r"^<core::(result::Result|option::Option|ops::control_flow::ControlFlow)<.*> as core::ops::try_trait::(Try|FromResidual<.*>)>::(branch|from_residual|from_output)$"
                              r"|^<(.*) as core::convert::From<\2>>::from$|^<.* as core::convert::Into<.*>>::into$"
                              r"|^core::result::Result::<.*>::(ok|err)$|^core::option::Option::<.*>::(ok_or|copied|cloned)$")
 
@@ -394,7 +394,9 @@ def thread_jumps(F, n, rounds=12):
             chain = [b]
             while len(preds[chain[0]]) == 1 and len(chain) < 8:
                 q = preds[chain[0]][0]
-                if q in chain or blocks[q]["t"]["k"] != "goto" or blocks[q].get("dead"):
+                if q in chain or blocks[q]["t"]["k"] not in ("goto", "drop") or blocks[q].get("dead"):
+                    break
+                if blocks[q]["t"]["k"] == "drop" and blocks[q]["t"].get("ret") != chain[0]:
                     break
                 chain.insert(0, q)
             head = chain[0]
@@ -437,7 +439,10 @@ def thread_jumps(F, n, rounds=12):
                 for ci, cb in enumerate(chain):
                     src = blocks[cb]
                     last = ci == len(chain) - 1
-                    nt = {"k": "goto", "ret": tgt if last else first + ci + 1, "sp": src["t"].get("sp", ""), "exp": src["t"].get("exp", False)}
+                    if not last and src["t"]["k"] == "drop":
+                        nt = dict(src["t"]); nt["ret"] = first + ci + 1          # a drop on the way is duplicated with its block
+                    else:
+                        nt = {"k": "goto", "ret": tgt if last else first + ci + 1, "sp": src["t"].get("sp", ""), "exp": src["t"].get("exp", False)}
                     if last:
                         nt["threaded"] = v
                     blocks.append({"s": list(src["s"]), "t": nt, "cleanup": src.get("cleanup", False), "from": src.get("from"), "site": src.get("site")})
